@@ -2,6 +2,7 @@ package checks
 
 import (
 	"fmt"
+	"io/fs"
 	"syscall"
 
 	"verif/internal/fsx"
@@ -59,6 +60,30 @@ func c04Mutations(p string) []fsx.Op {
 		{K: "RemoveAll", P: p},
 		{K: "MkdirAll", P: p + "/x/y", Perm: 0o755},
 		{K: "Symlink", P: "f", Q: p},
+	}
+}
+
+// c04Names compares the name a FileInfo carries: Stat and Lstat of a path report the last element of the path they
+// were given, whatever the links on the way lead to.
+func c04Names(c *rt.Ctx, l *lockstep, p string) {
+	fsx.BeginCall()
+	for _, q := range []string{"Stat", "Lstat"} {
+		var fa, fb fs.FileInfo
+		var ea, eb error
+		if q == "Stat" {
+			fa, ea = l.emu.FS.Stat(p)
+			fb, eb = l.osx.FS.Stat(p)
+		} else {
+			fa, ea = l.emu.FS.Lstat(p)
+			fb, eb = l.osx.FS.Lstat(p)
+		}
+		if ea != nil || eb != nil {
+			continue
+		}
+		c.Rep.Case("MemFS|"+q+"|name-of-the-info", true)
+		if fa.Name() != fb.Name() {
+			c.Disagree("MemFS|"+q+"|name-of-the-info-differs", fmt.Sprintf("MemFS: %s(%q).Name() = %q but %q on Linux (graph %v)", q, p, fa.Name(), fb.Name(), opStrings(l.hist)), map[string]any{"path": p, "graph": opStrings(l.hist)})
+		}
 	}
 }
 
@@ -138,6 +163,7 @@ func init() {
 					if !ok {
 						break
 					}
+					c04Names(c, l, p)
 					// EvalSymlinks resolves ".." against what the link before it leads to, not lexically (the one call whose
 					// answer for a path is not that of its Clean() form): dot-dot, dot and further names after every path
 					if (pi+gi)%3 == 0 {
@@ -243,6 +269,7 @@ func init() {
 								for _, q := range c04Queries {
 									l.report(0o022, l.stepQuery(fsx.Op{K: q, P: p}), false)
 								}
+								c04Names(c, l, p)
 							}
 						}
 					}
